@@ -29,7 +29,7 @@ def _effects_after(ctx, f, p, start, tr):
 
 
 # ---------------------------------------------------------------------------
-@rule("ORD4", ["C17", "C05"])
+@rule("ORD4", ["C17", "C05", "C06"])
 def ord4(ctx, pid):
     """ScratchDB.batch_commit: wrapped db written only on the resumed-normally outcome of the
     yield; the throw outcome re-raises; the cache is reset on every exit."""
@@ -135,6 +135,13 @@ def _check_buffer_values(ctx):
     for g, want in ((si, "value"), (di, "DELETED")):
         stores = [e for e in ctx.E.primitives(g) if e.op == "W" and e.state == "CACHE"]
         cst = "buffer-value:ScratchDB.%s" % g.name
+        # every call records its action: the store is on every path
+        missing = [p for p in ctx.X.paths(g) if p.exit[0] != "raise" and not any(
+            ev.k == "stmt" and any(e.node is ev.node for e in stores) for ev in p.events)]
+        if stores and missing:
+            ctx.bad("buffer-always:ScratchDB.%s" % g.name, g.loc(), "a path through %s returns without recording the action in the cache (last-write-wins would be lost)" % g.name, rule="EFF1")
+        elif stores:
+            ctx.ok("buffer-always:ScratchDB.%s" % g.name, g.loc(), "the action is recorded on every path", rule="EFF1")
         if len(stores) != 1:
             ctx.unsure(cst, g.loc(), "expected exactly one cache store, found %d" % len(stores))
             continue
@@ -159,7 +166,7 @@ def _is_deleted_marker(ctx, e, f):
 
 
 # ---------------------------------------------------------------------------
-@rule("PROV12", ["C17", "C04"])
+@rule("PROV12", ["C17", "C04", "C06"])
 def prov12(ctx, pid):
     """Commit loop: iterates cache.items() unfiltered; a write happens iff the value is not the
     DELETED marker; a delete only for the marker and only under do_deletes."""
@@ -466,7 +473,7 @@ def al2(ctx, pid):
             continue
         kind, why = _arg_sharing(ctx, f, arg)
         if kind == "shared":
-            if pid == "C05":
+            if pid in ("C05", "C06"):
                 ctx.bad(c, f.loc(arg), "mutable state of the outer trie (`%s`: %s) is passed to the batch trie by reference; an aborted batch cannot be undone"
                         % (ast.unparse(arg), why), witness={"argument": ast.unparse(arg)})
             else:
